@@ -320,6 +320,23 @@ CHECKS = {
         "get_frame not called after reset. Long random sequences on large streams are not covered.",
         "DESIGN.md §4 C10",
     ),
+    "C20": (
+        "exploration",
+        "exhaustive paired execution: every scenario/schedule/input of the C01, C05 and C16 menus replayed with logging off and on, observations compared",
+        "The same choice list / input is executed on fresh objects under {qlog off,on} x {secrets log off,on} "
+        "and compared with the all-off run: C01's scripts x configs plus Retry/Version Negotiation scenarios "
+        "under the default schedule and EVERY single-deviation schedule; C05's raw and frame menus (plus "
+        "packet-level inputs: reserved bits, key phase, duplicate/stale packet numbers) chained on PeerBot "
+        "states; C16's hostile HTTP/3 stream menu and 88 end-to-end header cases through real H3Connections. "
+        "Compared per API call: exception-or-not, datagram sizes/destinations/times, frames of every packet "
+        "(independently decrypted), popped events, get_timer(); at the end a projection of connection, "
+        "recovery and stream state. With qlog on json.dumps(to_dict()) must succeed and packet_sent / "
+        "packet_received record counts must equal the packets seen leaving / taken into frame processing.",
+        "Random fields (CIDs, challenges) are compared by length and first-appearance order. The hostile TLS "
+        "message menu of C05 is not replayed here. Inputs outside the C helpers' memory contract are skipped "
+        "in every setting (none on the repaired tree).",
+        "DESIGN.md §4 C20",
+    ),
 }
 
 NOT_YET = {}
